@@ -115,9 +115,11 @@ FreshSec == [c \in Conns |-> Unencrypted]
 
 Explain(ev) ==
     \/ /\ ev.e = "Reset"
-       /\ WellFormed(ev.decl) /\ ev.smtu = ev.decl.opts.mtu /\ ev.nconn = NConn
-       /\ d' = ev.decl /\ t' = Build(ev.decl)
-       /\ ph' = ProtHandles(ev.decl, t') /\ pser' = ProtSerials(ev.decl, t')
+       /\ ev.smtu = ev.decl.opts.mtu /\ ev.nconn = NConn
+       /\ IF ev.decl = d THEN UNCHANGED <<d, t, ph, pser>>          \* same server as before: keep the table
+          ELSE /\ WellFormed(ev.decl)
+               /\ d' = ev.decl /\ t' = Build(ev.decl)
+               /\ ph' = ProtHandles(ev.decl, t') /\ pser' = ProtSerials(ev.decl, t')
        /\ sec' = FreshSec /\ mtu' = [c \in Conns |-> 23]
        /\ vals' = <<>> /\ cccd' = <<>> /\ wq' = WqFree /\ may' = {} /\ must' = {} /\ await' = [c \in Conns |-> FALSE]
     \/ /\ ev.e \in {"Cccds", "Obs", "SetVal"}
